@@ -465,17 +465,6 @@ func genCase(t *rapid.T) Case {
 				}
 			}
 			c.Ops = append(c.Ops, o)
-			size := 0
-			for _, v := range o.Vals {
-				size += len(v.B)
-			}
-			if !tpl && size <= 2000 && rapid.IntRange(0, 14999).Draw(t, "many") == 0 {
-				// the same record many more times: sets that grow beyond what one message carries
-				for r := rapid.SampledFrom([]int{40, 150}).Draw(t, "times"); r > 0; r-- {
-					o.Path = (o.Path + 1) % 3
-					c.Ops = append(c.Ops, o)
-				}
-			}
 		case k <= 7:
 			c.Ops = append(c.Ops, Op{Kind: "update"})
 		default:
